@@ -270,6 +270,16 @@ def r17_6(ctx):
                 ctx.violated("R17.6", f.where(c), f"`{norm(c)}` reads at most {norm(c.args[0]) if c.args else '?'} characters: a longer record is cut and its remaining fields are lost", key_of(f, f"bounded-readline:{norm(c)}"))
             else:
                 ctx.holds("R17.6", f.where(c), "the record at an offset is read as one whole line")
+        # the reader hands back whatever line is at the offset: it does not turn lines away by their content (a valid last
+        # record without a line end, a record that fills a BGZF block to the byte)
+        for r_ in walk_own(f.node):
+            if isinstance(r_, ast.Raise) or (isinstance(r_, ast.Return) and (r_.value is None or (isinstance(r_.value, ast.Constant) and r_.value.value is None))):
+                from .c09 import guards_of as _go
+
+                read_names = {norm(st_.targets[0]) for st_ in walk_own(f.node) if isinstance(st_, ast.Assign) and len(st_.targets) == 1 and any(x_ is c_ for c_ in reads for x_ in ast.walk(st_.value))}
+                gs_ = [norm(t_) for t_, _p in _go(f.node, r_) if read_names & {x_.id for x_ in ast.walk(t_) if isinstance(x_, ast.Name)}]
+                if gs_:
+                    ctx.violated("R17.6", f.where(r_), f"the reader of the record at an offset gives up ({'raise' if isinstance(r_, ast.Raise) else 'return None'}) depending on the text of the line it read (`{gs_[0][:60]}`): a correctly indexed record that does not look as expected there — the last record of a file without a final line end, a record read from a BGZF block boundary — cannot be fetched", key_of(f, f"reader-refuses-line:{gs_[0][:40]}"))
         paths = enum_paths(f.node.body, rule="R17.6", where=f.where())
         verdict = None
         for p in paths:
@@ -336,6 +346,72 @@ def tag_parser(ctx):
 # ---------------------------------------------------------------------------------------------
 
 
+def r07_14(ctx):
+    """GFA.write_gfa truncates its output unless it is asked to append: `open(path, "a")` is reached only where the `append`
+    parameter has been tested true (a mode chosen by whether the file already exists adds to what an earlier run left)."""
+    repo = ctx.repo
+    wf = repo.func("gaftools.gfa", "GFA.write_gfa", "R07.14")
+    ap = next((p_ for p_ in wf.params if "append" in p_), None)
+    if ap is None:
+        raise AnalysisError("R07.14", wf.where(), "the writer has no append parameter")
+    from .c09 import guards_of
+
+    n = 0
+    for c in walk_own(wf.node):
+        if not (isinstance(c, ast.Call) and norm(c.func) in ("open", "io.open", "gzip.open") and len(c.args) >= 2):
+            continue
+        n += 1
+        me = c.args[1]
+        cands = []  # (mode text, node whose guards decide it)
+        if isinstance(me, ast.Constant):
+            cands.append((me.value, c))
+        elif isinstance(me, ast.IfExp):
+            stmt_ = next((s2 for s2 in walk_stmts(wf.node.body) if not isinstance(s2, (ast.If, ast.For, ast.While, ast.With, ast.Try)) and any(x is c for x in ast.walk(s2))), None)
+            for arm, pol in ((me.body, True), (me.orelse, False)):
+                if isinstance(arm, ast.Constant) and stmt_ is not None:
+                    cands.append((arm.value, (stmt_, me.test, pol)))
+        elif isinstance(me, ast.Name):
+            for st in walk_own(wf.node):
+                if isinstance(st, ast.Assign) and len(st.targets) == 1 and norm(st.targets[0]) == me.id:
+                    v = st.value
+                    if isinstance(v, ast.Constant):
+                        cands.append((v.value, st))
+                    elif isinstance(v, ast.IfExp):
+                        for arm, pol in ((v.body, True), (v.orelse, False)):
+                            if isinstance(arm, ast.Constant):
+                                cands.append((arm.value, (st, v.test, pol)))
+                    else:
+                        raise AnalysisError("R07.14", wf.where(st), f"cannot read the open mode `{norm(v)[:40]}`")
+        else:
+            raise AnalysisError("R07.14", wf.where(c), f"cannot read the open mode `{norm(me)[:40]}`")
+        for mode, site in cands:
+            if not (isinstance(mode, str) and mode.startswith("a")):
+                continue
+            tests = []
+            if isinstance(site, tuple):
+                st, t_, pol_ = site
+                tests = [canon_test(t_, pol_)] + [canon_test(t, p) for t, p in guards_of(wf.node, st)]
+                where = st
+            else:
+                stmt = next((s2 for s2 in walk_stmts(wf.node.body) if not isinstance(s2, (ast.If, ast.For, ast.While, ast.With, ast.Try)) and any(x is site for x in ast.walk(s2))), site)
+                tests = [canon_test(t, p) for t, p in guards_of(wf.node, stmt)]
+                where = stmt
+            def _dead(t_, pol_):
+                # a test between literals (the parameter was replaced by the constant every caller passes): the arm it rules out is dead
+                import re as _re
+
+                m_ = _re.fullmatch(r"(True|False|None) (is|==) (True|False|None)", t_)
+                return bool(m_) and ((m_.group(1) == m_.group(3)) != pol_)
+
+            if any(_dead(t, pol) for t, pol in tests) or any(t in ("False", "None") and pol is True or t == "True" and pol is False for t, pol in tests):
+                continue
+            asked = any((t == ap and pol is True) or (t in (f"{ap} is False", f"{ap} == False") and pol is False) or (ap in t and "and" in t and pol is True) for t, pol in tests)
+            if not asked:
+                ctx.violated("R07.14", wf.where(where), f"the writer opens its output for appending (mode {mode!r}) on a path where `{ap}` has not been tested true ({[t for t, _ in tests][:2]}): with {ap}=False — what order_gfa passes — a file left by an earlier run is extended, so every segment and link is written twice and L lines come before S lines", key_of(wf, f"append-without-being-asked:{mode}"))
+    ctx.require_count("R07.14", n, 1, wf.where(), "open calls of the GFA writer")
+    ctx.holds("R07.14", wf.where(), "the GFA writer appends only when asked to (append tested true); otherwise it truncates", nontrivial=True)
+
+
 def graph_loader(ctx):
     """links after segments (R06.6), bounded tag split (R07.4), S line -> add_node (R07.10), tag-less links (R07.11),
     verbatim storage and unfiltered links (R07.12)"""
@@ -350,6 +426,7 @@ def graph_loader(ctx):
     ctx.run(c07.r07_10, g)
     ctx.run(c07.r07_11, g)
     ctx.run(r07_12, g)
+    ctx.run(r07_14)
 
 
 def r07_12(ctx, g):
@@ -389,6 +466,10 @@ def r07_12(ctx, g):
                 ctx.violated("R07.12", an.where(st), f"a tag is stored under `{norm(k)}`: two tags of one segment that differ only in what `{k.func.attr}()` removes collapse into one (a user tag `no:i:7` overwrites NO)", key_of(an, f"tag-key:{norm(k)}"))
             else:
                 raise AnalysisError("R07.12", an.where(st), f"a tag is stored under `{norm(k)[:60]}`")
+    # ... nor is the name changed on the way to the store (`tag[0] = tag[0].upper()` for "known" names)
+    for st in walk_own(an.node):
+        if isinstance(st, ast.Assign) and isinstance(st.value, ast.Call) and isinstance(st.value.func, ast.Attribute) and st.value.func.attr in ("upper", "lower", "casefold", "title", "capitalize", "swapcase") and isinstance(st.targets[0], (ast.Subscript, ast.Name)) and norm(st.targets[0]) == norm(st.value.func.value):
+            ctx.violated("R07.12", an.where(st), f"`{norm(st)[:60]}` rewrites a tag name before it is stored: a segment that carries both spellings (a user tag `no:i:7` next to `NO:i:0`, `sr:i:` read support next to `SR:i:`) ends up with one of them, the later overwriting the earlier", key_of(an, f"tag-name-rewritten:{norm(st.value)[:30]}"))
     ctx.require_count("R07.12", nt, 1, an.where(), "store of a segment tag in add_node")
     # links: in the loop that adds the buffered links the only way past a link is the missing-segment guard
     rg = repo.func("gaftools.gfa", "GFA.read_graph", "R07.12")
@@ -428,6 +509,12 @@ def r07_12(ctx, g):
                                     proj = cal
                 if proj is not None:
                     ctx.violated("R07.12", rgn.where(lp), f"a link of the file is skipped when `{why[0][:90]}`: {proj.qualname} compares the neighbour's id only, not the side at which the link enters it, so a different link between the same two segments (a+ b+ after a+ b-) is dropped", key_of(rgn, f"link-filter-by-id:{proj.qualname}"))
+                    continue
+                # a condition on the link's own columns (its overlap, an orientation, a length): a link of the file that satisfies
+                # it is left out of the graph, and of everything written from it
+                link_cols = any(isinstance(x_, ast.Subscript) and isinstance(const_value(x_.slice, None), int) for t_, _pl in p.tests() for x_ in ast.walk(t_))
+                if link_cols and not any(isinstance(x_, ast.Call) and repo.resolve_call(rgn, x_) is not None for t_, _pl in p.tests() for x_ in ast.walk(t_)):
+                    ctx.violated("R07.12", rgn.where(lp), f"a link of the file is not added to the graph when `{why[0][:90]}`: links are left out by a property of their own (every link whose segments exist belongs to the graph that is written back)", key_of(rgn, f"link-filter:{why[0][:50]}"))
                     continue
                 raise AnalysisError("R07.12", rgn.where(lp), f"a link of the file is not added under `{why[0][:100]}`: cannot decide which links that drops")
         ctx.holds("R07.12", rgn.where(lp), f"every link whose two segments exist is added to the graph ({len(paths)} paths through the link loop)")
@@ -543,6 +630,31 @@ def cli_layer(ctx, command, stdout_records=True):
             if isinstance(c, ast.Call) and norm(c.func) in ("open", "io.open", "gzip.open", "libcbgzf.BGZFile", "BGZFile") and len(c.args) >= 2 and isinstance(c.args[1], ast.Constant) and isinstance(c.args[1].value, str) and c.args[1].value.startswith("a"):
                 ctx.violated("R00.6", f.where(c), f"`{norm(c)[:60]}` opens an output for appending: a file left by an earlier run is kept and the new records are added after it, so the output is not what this run produced", key_of(f, f"append-mode:{norm(c.args[0])[:30]}"))
     ctx.holds("R00.6", mod.relpath, "no output of the command is opened in append mode", nontrivial=False)
+    # R00.6 (b): what the command produces does not depend on files left by an earlier run: no early `return` of a command
+    # function under a test of the file system state of its output (exists / is newer than the inputs)
+    def _fs_probe(fn_, e_, depth=0):
+        for x_ in ast.walk(e_):
+            if isinstance(x_, ast.Call):
+                t_ = norm(x_.func)
+                if t_.startswith(("os.path.getmtime", "os.path.exists", "os.path.isfile", "os.path.getsize", "os.stat", "os.path.getctime")) or t_.endswith((".exists", ".is_file", ".stat")):
+                    return norm(x_)[:50]
+                cal_ = repo.resolve_call(fn_, x_)
+                if cal_ is not None and depth < 2:
+                    for y_ in walk_own(cal_.node):
+                        if isinstance(y_, ast.Call):
+                            r_ = _fs_probe(cal_, y_, depth + 1) if norm(y_.func).startswith("os.") or repo.resolve_call(cal_, y_) is not None else None
+                            if r_:
+                                return r_
+        return None
+
+    for f in mod.funcs.values():
+        if f.cls is not None or not f.name.startswith("run"):
+            continue
+        for st in f.node.body:
+            if isinstance(st, ast.If) and any(isinstance(x_, ast.Return) and (x_.value is None or isinstance(x_.value, ast.Constant)) for x_ in ast.walk(st)):
+                pr = _fs_probe(f, st.test)
+                if pr:
+                    ctx.violated("R00.6", f.where(st), f"the command returns without doing its work when `{norm(st.test)[:70]}` (it looks at the file system: `{pr}`): what is found at the output path after the run is then whatever an earlier run left there — built from other inputs, other options, or without a file this run was asked for", key_of(f, f"skip-on-existing-output:{norm(st.test)[:40]}"))
     # R00.3 / R00.4 over the command's own module (all functions)
     if mod.name not in ctx.__dict__.get("_prelinted", set()):
         text_lint(ctx, [mod])
@@ -552,6 +664,7 @@ def cli_layer(ctx, command, stdout_records=True):
     if _once(ctx, "lib-text-lint"):
         text_lint(ctx, libs)
     n_p = pitfall_lints(ctx, [f for m_ in [mod] + libs if m_.name not in done_ for f in m_.funcs.values()], "R00.7")
+    n_p += lifecycle_lints(ctx, [f for m_ in [mod] + libs if m_.name not in done_ for f in m_.funcs.values()], "R00.11")
     if n_p == 0:
         ctx.holds("R00.7", mod.relpath, "no identity comparison of values and no list changed inside the loop that iterates it (command module and library modules)", nontrivial=False)
 
@@ -914,6 +1027,61 @@ def pitfall_lints(ctx, funcs, rule):
                     continue  # nothing says these are numbers or text: identity of objects may be meant
                 n += 1
                 ctx.violated(rule, f.where(c), f"`{norm(c)[:70]}` compares object identity, not value: two equal integers above 256 (or two equal strings read from a file) are different objects, so equal values are treated as different", key_of(f, f"identity-of-values:{norm(c)[:50]}"))
+            # (e) a module-level table that a function fills with something that depends on more than the key it is filed under
+            # (`_last_hit[id(intervals)] = mid`, mid computed from the query): a later call with the same key and other
+            # arguments is answered from it, so results depend on the calls that came before
+            if isinstance(c, ast.Assign) and len(c.targets) == 1 and isinstance(c.targets[0], ast.Subscript) and isinstance(c.targets[0].value, ast.Name) and isinstance(f.module.consts.get(c.targets[0].value.id), (ast.Dict, ast.Call)) and norm(f.module.consts[c.targets[0].value.id]) in ("{}", "dict()") and c.targets[0].value.id not in f.params and not any(isinstance(a_, ast.Assign) and a_ is not c and isinstance(a_.targets[0], ast.Name) and a_.targets[0].id == c.targets[0].value.id for a_ in walk_own(f.node)):
+                from ..core import local_defs as _ld2
+
+                ld_ = _ld2(f.node)
+
+                def _deps(e_, depth=0, seen=()):
+                    out_ = set()
+                    for x_ in ast.walk(e_):
+                        if isinstance(x_, ast.Name) and isinstance(x_.ctx, ast.Load):
+                            if x_.id in f.params:
+                                out_.add(x_.id)
+                            elif x_.id in ld_ and depth < 3 and x_.id not in seen:
+                                for d_ in ld_[x_.id]:
+                                    if d_ is not None:
+                                        out_ |= _deps(d_, depth + 1, seen + (x_.id,))
+                    return out_
+
+                kd_, vd_ = _deps(c.targets[0].slice), _deps(c.value)
+                extra_ = sorted(vd_ - kd_ - {"self"})
+                if kd_ and extra_:
+                    n += 1
+                    ctx.violated(rule, f.where(c), f"`{norm(c)[:60]}` files a value that depends on {', '.join(extra_)} in the module-level table `{c.targets[0].value.id}` under a key that only says {', '.join(sorted(kd_))}: a later call with the same key and other {', '.join(extra_)} is answered from what an earlier call left there, so the result for one record depends on the records before it", key_of(f, f"module-table-key-incomplete:{c.targets[0].value.id}"))
+            # (d) merging sorted intervals: the end of the interval being grown is replaced by the end of the next one instead of
+            # the larger of the two (`merged[-1][2] = e` under `s <= merged[-1][2]`): an interval nested in the previous one shrinks it
+            if isinstance(c, ast.Assign) and len(c.targets) == 1 and isinstance(c.targets[0], (ast.Subscript, ast.Attribute)) and isinstance(c.value, ast.Name) and "[-1]" in norm(c.targets[0]):
+                tgt_ = norm(c.targets[0])
+                lp_ = next((l_ for l_ in walk_own(f.node) if isinstance(l_, ast.For) and any(x_ is c for x_ in ast.walk(l_)) and c.value.id in {x_.id for x_ in ast.walk(l_.target) if isinstance(x_, ast.Name)}), None)
+                if lp_ is not None:
+                    from .c09 import guards_of as _go2
+
+                    for t_, pol_ in _go2(f.node, c):
+                        for q_ in ast.walk(t_):
+                            if isinstance(q_, ast.Compare) and len(q_.ops) == 1 and isinstance(q_.ops[0], (ast.LtE, ast.Lt, ast.GtE, ast.Gt)) and tgt_ in norm(q_) and any(isinstance(x_, ast.Name) and x_.id in {y_.id for y_ in ast.walk(lp_.target) if isinstance(y_, ast.Name)} and x_.id != c.value.id for x_ in ast.walk(q_)):
+                                n += 1
+                                ctx.violated(rule, f.where(c), f"`{norm(c)[:50]}` (under `{norm(q_)[:40]}`) replaces the end of the interval being grown by the end of the next one: an interval that lies inside the previous one makes it shorter, so what the longer one covered beyond it is lost (`10-700` followed by `120-130` becomes `10-130`); the larger of the two ends is wanted", key_of(f, f"merge-end-not-max:{tgt_[:30]}"))
+                                break
+            # (c) a one-shot iterator that is walked with a `break` and used again afterwards: the item taken in the iteration that
+            # breaks is gone unless it was saved before the break
+            if isinstance(c, ast.For):
+                itv = c.iter.args[0] if isinstance(c.iter, ast.Call) and norm(c.iter.func) == "enumerate" and c.iter.args else c.iter
+                if isinstance(itv, ast.Name):
+                    gens = [st_ for st_ in walk_own(f.node) if isinstance(st_, ast.Assign) and len(st_.targets) == 1 and norm(st_.targets[0]) == itv.id and isinstance(st_.value, ast.Call) and (norm(st_.value.func).split(".")[-1] in ("read_file", "iter", "finditer", "map", "filter", "zip") or (ctx.repo.resolve_call(f, st_.value) is not None and any(isinstance(y_, (ast.Yield, ast.YieldFrom)) for y_ in walk_own(ctx.repo.resolve_call(f, st_.value).node))))]
+                    later = [x_ for x_ in walk_own(f.node) if isinstance(x_, ast.Name) and x_.id == itv.id and isinstance(x_.ctx, ast.Load) and x_ is not itv and f.before(c, x_) and not any(y_ is x_ for y_ in ast.walk(c))]
+                    tnames = {x_.id for x_ in ast.walk(c.target) if isinstance(x_, ast.Name)} - ({c.target.elts[0].id} if isinstance(c.iter, ast.Call) and isinstance(c.target, ast.Tuple) and isinstance(c.target.elts[0], ast.Name) else set())
+                    if gens and later and tnames:
+                        for k_, st_ in enumerate(c.body):
+                            if any(isinstance(b_, ast.Break) for b_ in ast.walk(st_)) and not isinstance(st_, (ast.For, ast.While)):
+                                saved = any(isinstance(a_, ast.Call) and isinstance(a_.func, ast.Attribute) and a_.func.attr in ("append", "add") and a_.args and ({x_.id for x_ in ast.walk(a_.args[0]) if isinstance(x_, ast.Name)} & tnames) for p_ in c.body[:k_] for a_ in ast.walk(p_))
+                                if not saved:
+                                    n += 1
+                                    ctx.violated(rule, f.where(st_), f"the loop over the one-shot iterator `{itv.id}` can leave through `{norm(st_)[:40]}` after an item has been taken and before it is kept anywhere, and `{itv.id}` is used again afterwards (`{norm(later[0])}` at line {getattr(later[0], 'lineno', '?')}): that item is lost (with `if i == 10: break` the 11th record never reaches the second consumer)", key_of(f, f"iterator-item-lost:{itv.id}"))
+                                break
             if isinstance(c, ast.For) and isinstance(c.iter, ast.Name):
                 xs = c.iter.id
                 for m_ in ast.walk(c):
@@ -926,6 +1094,542 @@ def pitfall_lints(ctx, funcs, rule):
                         n += 1
                         ctx.violated(rule, f.where(m_), f"`{hit[:60]}` changes the list `{xs}` inside the loop that iterates it: after a removal the iterator skips the next element (after an insertion it sees one twice), so some elements are never processed", key_of(f, f"mutated-while-iterated:{hit[:40]}"))
                         break
+    return n
+
+
+# the one command function that closes its output handle unconditionally in the pinned tree (also when it is sys.stdout).  It is the
+# deviant sibling — view, find_path, phase and stat leave standard output open — but what it breaks (a second sort in the same
+# process writing to standard output) lies outside the quantifier of C08-C10 (one command, its own output), so it is neither a
+# finding of those properties nor may it raise an alarm; a *new* unconditional close anywhere else is reported.
+_CLOSES_STDOUT_TODAY = {("gaftools.cli.sort", "run_sort")}
+
+
+def lifecycle_lints(ctx, funcs, rule):
+    """Lifetime and laziness mistakes that are wrong whatever the surrounding code means:
+    (a) a one-shot iterator (generator expression, zip / map / filter / iter(...), a generator function's result) bound to a
+        name and consumed twice, or handed twice to one zip: the second consumer finds it empty / the pairs are taken from one stream;
+    (b) a lambda / generator expression / nested function created in a loop that reads a name the loop rebinds, and is kept
+        (appended, put in a tuple, passed as target=) instead of being called at once: it sees the last value;
+    (c) a mutable default argument (or a default bound to a local list / dict of the enclosing function) that the function
+        fills or that is rebound outside: state survives between calls / the default is the first object for ever;
+    (d) a module-level list that a function appends to without emptying it: records of an earlier call are still there;
+    (e) `close()` / `with` on a handle that can be sys.stdout without an `is not sys.stdout` test."""
+    from ..core import norm, walk_own, walk_stmts
+    from .c09 import guards_of
+
+    n = 0
+    ONE_SHOT = ("zip", "map", "filter", "iter", "reversed", "enumerate")
+    CONSUMERS = ("sum", "any", "all", "list", "tuple", "set", "sorted", "min", "max", "next", "dict", "len")
+    for f in funcs:
+        # (a)
+        gens = {}
+        for st in walk_own(f.node):
+            if isinstance(st, ast.Assign) and len(st.targets) == 1 and isinstance(st.targets[0], ast.Name):
+                v = st.value
+                one_shot = isinstance(v, ast.GeneratorExp) or (isinstance(v, ast.Call) and isinstance(v.func, ast.Name) and v.func.id in ONE_SHOT)
+                if one_shot:
+                    gens.setdefault(st.targets[0].id, []).append(st)
+        for g_, defs in gens.items():
+            stores = sum(1 for x in walk_own(f.node) if isinstance(x, ast.Name) and x.id == g_ and isinstance(x.ctx, ast.Store))
+            if stores != 1:
+                continue
+            uses = []
+            for x in walk_own(f.node):
+                if isinstance(x, ast.For) and isinstance(x.iter, ast.Name) and x.iter.id == g_:
+                    uses.append(x)
+                elif isinstance(x, ast.comprehension) and isinstance(x.iter, ast.Name) and x.iter.id == g_:
+                    uses.append(x)
+                elif isinstance(x, ast.Call) and isinstance(x.func, ast.Name) and x.func.id in CONSUMERS + ONE_SHOT:
+                    k_ = sum(1 for a in x.args if isinstance(a, ast.Name) and a.id == g_)
+                    if k_ >= 2:
+                        n += 1
+                        ctx.violated(rule, f.where(x), f"`{norm(x)[:50]}` takes the one-shot iterator `{g_}` twice: both arguments draw from the same stream, so the pairs are (1st, 2nd), (3rd, 4th), ... and every other consecutive pair is never looked at", key_of(f, f"iterator-zipped-with-itself:{g_}"))
+                    elif k_ == 1 and x.func.id != "len":
+                        uses.append(x)
+            # uses inside the loop that the definition is also in are re-evaluated per iteration with a fresh iterator
+            def_loop = next((l_ for l_ in walk_own(f.node) if isinstance(l_, (ast.For, ast.While)) and any(y is defs[0] for y in ast.walk(l_))), None)
+            uses = [u for u in uses if def_loop is None or any(y is u for y in ast.walk(def_loop)) or True]
+            # two consumers on one path: both outside any branch that excludes the other (conservatively: neither is inside an If arm the other is not in)
+            if len(uses) >= 2:
+                def arms(u):
+                    return tuple((id(i_), "b" if any(y is u for b_ in i_.body for y in ast.walk(b_)) else "o") for i_ in walk_own(f.node) if isinstance(i_, ast.If) and any(y is u for y in ast.walk(i_)) and not any(y is u for y in ast.walk(i_.test)))
+                a0, a1 = arms(uses[0]), arms(uses[1])
+                exclusive = any(i0 == i1 and s0 != s1 for (i0, s0) in a0 for (i1, s1) in a1)
+                if not exclusive:
+                    n += 1
+                    ctx.violated(rule, f.where(uses[1]), f"the one-shot iterator `{g_}` (`{norm(defs[0].value)[:40]}`) is consumed twice (`{norm(uses[0])[:40]}` and `{norm(uses[1])[:40]}`): what the first consumer took is gone, the second sees the rest or nothing (a sum over it is 0, an any() is False)", key_of(f, f"iterator-consumed-twice:{g_}"))
+        # (b)
+        for lp in walk_own(f.node):
+            if not isinstance(lp, (ast.For, ast.While)):
+                continue
+            rebound = {x.id for x in ast.walk(lp) if isinstance(x, ast.Name) and isinstance(x.ctx, ast.Store)}
+            # names rebound after the loop body as well (the closure is evaluated later): names assigned anywhere in the function after creation
+            for c in ast.walk(lp):
+                late = None
+                if isinstance(c, ast.Lambda):
+                    free = {x.id for x in ast.walk(c.body) if isinstance(x, ast.Name) and isinstance(x.ctx, ast.Load)} - {a.arg for a in c.args.args + c.args.kwonlyargs}
+                    late = c
+                elif isinstance(c, ast.GeneratorExp):
+                    own = {x.id for g2 in c.generators for x in ast.walk(g2.target) if isinstance(x, ast.Name)}
+                    free = ({x.id for x in ast.walk(c.elt) if isinstance(x, ast.Name) and isinstance(x.ctx, ast.Load)} | {x.id for g2 in c.generators for i2 in g2.ifs for x in ast.walk(i2) if isinstance(x, ast.Name)}) - own
+                    late = c
+                elif isinstance(c, ast.FunctionDef) and c is not f.node:
+                    own = {a.arg for a in c.args.args + c.args.kwonlyargs} | {x.id for x in ast.walk(c) if isinstance(x, ast.Name) and isinstance(x.ctx, ast.Store)}
+                    free = {x.id for x in ast.walk(c) if isinstance(x, ast.Name) and isinstance(x.ctx, ast.Load)} - own
+                    late = c
+                if late is None:
+                    continue
+                captured = sorted(free & rebound)
+                if not captured:
+                    continue
+                # kept for later?  appended / stored in a container / passed as a keyword `target=` / put in a tuple that is appended
+                kept = False
+                nm = c.name if isinstance(c, ast.FunctionDef) else None
+                for k in ast.walk(lp):
+                    if isinstance(k, ast.Call):
+                        if any(kw.arg in ("target", "key", "callback") and (kw.value is c or (nm and isinstance(kw.value, ast.Name) and kw.value.id == nm)) for kw in k.keywords) and norm(k.func).split(".")[-1] in ("Process", "Thread", "submit", "apply_async"):
+                            kept = True
+                        if isinstance(k.func, ast.Attribute) and k.func.attr in ("append", "add", "put") and any((y is c) or (nm and isinstance(y, ast.Name) and y.id == nm and isinstance(y.ctx, ast.Load)) for a in k.args for y in ast.walk(a)):
+                            kept = True
+                        if isinstance(k.func, ast.Attribute) and norm(k.func) in ("itertools.chain", "chain") and any(y is c for a in k.args for y in ast.walk(a)):
+                            kept = True
+                    if isinstance(k, ast.Assign) and isinstance(k.value, ast.Call) and norm(k.value.func) in ("itertools.chain", "chain") and any(y is c for a in k.value.args for y in ast.walk(a)):
+                        kept = True
+                if kept:
+                    n += 1
+                    what = "lambda" if isinstance(c, ast.Lambda) else ("generator expression" if isinstance(c, ast.GeneratorExp) else f"nested function `{c.name}`")
+                    ctx.violated(rule, f.where(c), f"a {what} created in a loop reads `{captured[0]}`, which the loop binds again, and is kept to be evaluated later (appended / chained / handed to a process as target): when it finally runs it sees the value of the last iteration (or of a later rebinding), not the one it was created with", key_of(f, f"late-binding-closure:{captured[0]}"))
+                    break
+        # (b') a list comprehension of lambdas over the comprehension variable
+        for c in walk_own(f.node):
+            if isinstance(c, ast.ListComp) and isinstance(c.elt, ast.Lambda):
+                own = {x.id for g2 in c.generators for x in ast.walk(g2.target) if isinstance(x, ast.Name)}
+                free = {x.id for x in ast.walk(c.elt.body) if isinstance(x, ast.Name) and isinstance(x.ctx, ast.Load)} - {a.arg for a in c.elt.args.args}
+                dflt = {norm(d_) for d_ in c.elt.args.defaults}
+                cap = sorted((free & own) - dflt)
+                if cap:
+                    n += 1
+                    ctx.violated(rule, f.where(c), f"the lambdas built by `{norm(c)[:50]}` all read the comprehension variable `{cap[0]}` when they are called, i.e. its last value: every one of them tests / computes with the last element", key_of(f, f"late-binding-closure:{cap[0]}"))
+        # (c)
+        a_ = f.node.args
+        pos = a_.posonlyargs + a_.args
+        for p_, d_ in list(zip(pos[len(pos) - len(a_.defaults):], a_.defaults)) + [(p2, d2) for p2, d2 in zip(a_.kwonlyargs, a_.kw_defaults) if d2 is not None]:
+            mutable = isinstance(d_, (ast.Dict, ast.List, ast.Set)) or (isinstance(d_, ast.Call) and norm(d_.func).split(".")[-1] in ("dict", "list", "set", "defaultdict", "OrderedDict", "Counter", "deque"))
+            outer_local = isinstance(d_, ast.Name) and f.parent is not None and any(isinstance(x, ast.Assign) and norm(x.targets[0]) == d_.id for x in walk_own(f.parent.node)) and sum(1 for x in walk_own(f.parent.node) if isinstance(x, ast.Assign) and norm(x.targets[0]) == d_.id) >= 2
+            if mutable:
+                filled = any((isinstance(x, ast.Assign) and isinstance(x.targets[0], ast.Subscript) and norm(x.targets[0].value) == p_.arg) or (isinstance(x, ast.Call) and isinstance(x.func, ast.Attribute) and norm(x.func.value) == p_.arg and x.func.attr in ("append", "add", "update", "setdefault", "extend", "insert")) or (isinstance(x, ast.Subscript) and norm(x.value) == p_.arg and isinstance(d_, ast.Call) and "defaultdict" in norm(d_.func)) for x in walk_own(f.node))
+                if filled:
+                    n += 1
+                    ctx.violated(rule, f.where(d_), f"parameter `{p_.arg}` has the mutable default `{norm(d_)[:40]}`, created once when the function is defined, and the function fills it: what one call puts there is still there in the next call (a second run in the same process starts with the entries of the first)", key_of(f, f"mutable-default-filled:{p_.arg}"))
+            elif outer_local:
+                n += 1
+                ctx.violated(rule, f.where(d_), f"the default of `{p_.arg}` is bound to the object `{d_.id}` names when `{f.name}` is defined; the enclosing function binds `{d_.id}` again later (a fresh list per round), so calls that rely on the default keep looking at the first object", key_of(f, f"default-bound-early:{p_.arg}"))
+        # (e)
+        for st in walk_own(f.node):
+            hv = None
+            if isinstance(st, ast.Call) and isinstance(st.func, ast.Attribute) and st.func.attr == "close" and isinstance(st.func.value, ast.Name) and not st.args:
+                hv, site = st.func.value.id, st
+            elif isinstance(st, ast.With):
+                for it in st.items:
+                    ce = it.context_expr
+                    if isinstance(ce, ast.IfExp) and "sys.stdout" in (norm(ce.body), norm(ce.orelse)):
+                        n += 1
+                        ctx.violated(rule, f.where(st), f"`with {norm(ce)[:60]}` closes whatever it was given when the block ends, also sys.stdout: every later write to standard output in the same process (a second call of the command, the caller's own prints) fails with `I/O operation on closed file`", key_of(f, "with-closes-stdout"))
+                    elif isinstance(ce, ast.Name):
+                        hv, site = ce.id, st
+            if hv is None:
+                continue
+            if (f.module.name, f.qualname) in _CLOSES_STDOUT_TODAY:
+                continue  # one named exception, with its reason, see the table
+            may_be_stdout = any(isinstance(a, ast.Assign) and norm(a.targets[0]) == hv and (norm(a.value) == "sys.stdout" or (isinstance(a.value, ast.IfExp) and "sys.stdout" in (norm(a.value.body), norm(a.value.orelse)))) for a in walk_own(f.node))
+            if not may_be_stdout:
+                continue
+            gs = [norm(t) for t, _p in guards_of(f.node, site if not isinstance(site, ast.Call) else next((s2 for s2 in walk_stmts(f.node.body) if isinstance(s2, ast.Expr) and s2.value is site), site))]
+            if not any("stdout" in g or "None" in g or "output" in g or "out" in g for g in gs):
+                n += 1
+                ctx.violated(rule, f.where(site), f"`{norm(site)[:40]}` closes the output handle also when it is sys.stdout (no `is not sys.stdout` / `output is not None` test around it): every later write to standard output in the same process fails with `I/O operation on closed file`", key_of(f, f"closes-stdout:{hv}"))
+    n += _handle_lints(ctx, funcs, rule)
+    n += _stale_in_loop_lint(ctx, funcs, rule)
+    n += _use_before_check_lint(ctx, funcs, rule)
+    # (d) module-level lists appended to from functions
+    mods = {f.module.name: f.module for f in funcs}
+    for mod in mods.values():
+        lists = {k for k, v in mod.consts.items() if isinstance(v, ast.List) and not v.elts or (isinstance(v, ast.Call) and norm(v.func) == "list" and not v.args)}
+        for f in mod.funcs.values():
+            for c in walk_own(f.node):
+                if isinstance(c, ast.Call) and isinstance(c.func, ast.Attribute) and c.func.attr in ("append", "extend") and isinstance(c.func.value, ast.Name) and c.func.value.id in lists and c.func.value.id not in f.params:
+                    nm = c.func.value.id
+                    local = any(isinstance(x, ast.Assign) and any(isinstance(t, ast.Name) and t.id == nm for t in x.targets) for x in walk_own(f.node))
+                    cleared = any(isinstance(x, ast.Call) and isinstance(x.func, ast.Attribute) and x.func.attr == "clear" and norm(x.func.value) == nm for x in walk_own(f.node)) or any(isinstance(x, ast.Delete) and any(norm(t).startswith(nm + "[") for t in x.targets) for x in walk_own(f.node))
+                    if not local and not cleared:
+                        n += 1
+                        ctx.violated(rule, f.where(c), f"`{norm(c)[:50]}` adds to the module-level list `{nm}`, which is created once when the module is imported and never emptied by `{f.name}`: a second call in the same process still finds the records of the first (they are sorted / written again, with offsets that belong to another file)", key_of(f, f"module-list-accumulates:{nm}"))
+                        break
+    return n
+
+
+def _is_open_call(v, modes=None):
+    """open(...) / gzip.open(...) / <lib>.BGZFile(...); `modes`: first letters of the mode argument that count (None: any)"""
+    if not isinstance(v, ast.Call):
+        return False
+    from ..core import norm, const_value
+
+    last = norm(v.func).split(".")[-1]
+    if not (last == "open" or last.endswith("File")):
+        return False
+    if modes is None:
+        return True
+    m = v.args[1] if len(v.args) > 1 else next((k.value for k in v.keywords if k.arg == "mode"), None)
+    mv = const_value(m) if m is not None else "r"
+    return isinstance(mv, str) and mv[:1] in modes
+
+
+def _handle_lints(ctx, funcs, rule):
+    """(f) a file opened for writing inside a loop and bound to a name is closed inside that loop (or handed on): closing the
+        name after the loop closes the last one only, the earlier ones are unflushed when their files are read back;
+    (g) a function that opens a path it was given with mode "w" is not called again for the same path (from a loop, or twice in
+        one function): each call truncates what the previous one wrote;
+    (h) a function that rewinds a reader after looping over it rewinds it on every way out of that loop;
+    (i) a line read from a freshly opened reader and thrown away (`h.readline()` as a statement) before the loop over the
+        reader, without a rewind: the loop never sees that line;
+    (j) a method that puts the object's own file handle (opened in __init__, closed by close()) in a `with`: the handle is
+        closed when the block ends (for a generator: when it is exhausted or dropped), every later read of the object fails."""
+    from ..core import norm, walk_own, walk_stmts
+
+    n = 0
+    repo = ctx.repo
+    fset = {id(f.node) for f in funcs}
+    for f in funcs:
+        own = list(walk_own(f.node))
+        loops = [x for x in own if isinstance(x, (ast.For, ast.While))]
+        # (f)
+        for lp in loops:
+            inner = [y for b in lp.body for y in ast.walk(b)]
+            for st in inner:
+                if isinstance(st, ast.Assign) and len(st.targets) == 1 and isinstance(st.targets[0], ast.Name) and _is_open_call(st.value, "wax"):
+                    h = st.targets[0].id
+                    # innermost loop only
+                    if any(l2 is not lp and any(y is st for y in ast.walk(l2)) for l2 in inner if isinstance(l2, (ast.For, ast.While))):
+                        continue
+                    closed_in = any(isinstance(c, ast.Call) and isinstance(c.func, ast.Attribute) and c.func.attr == "close" and norm(c.func.value) == h for c in inner)
+                    escapes = any(isinstance(c, ast.Call) and not (isinstance(c.func, ast.Attribute) and norm(c.func.value) == h) and norm(c.func) != "print" and any(isinstance(y, ast.Name) and y.id == h for a in list(c.args) + [k.value for k in c.keywords if k.arg != "file"] for y in ast.walk(a)) for c in inner) or any(isinstance(y, (ast.Return, ast.Yield)) and y.value is not None and h in {z.id for z in ast.walk(y.value) if isinstance(z, ast.Name)} for y in inner) or any(isinstance(a2, ast.Assign) and a2 is not st and any(isinstance(z, ast.Name) and z.id == h for z in ast.walk(a2.value)) for a2 in inner)
+                    closed_after = [c for c in own if isinstance(c, ast.Call) and isinstance(c.func, ast.Attribute) and c.func.attr == "close" and norm(c.func.value) == h and not any(y is c for y in inner)]
+                    if not closed_in and not escapes and closed_after:
+                        n += 1
+                        ctx.violated(rule, f.where(closed_after[0]), f"`{h}` is opened for writing inside the loop at line {lp.lineno} (`{norm(st)[:50]}`) and closed only after the loop: the close reaches the file of the last iteration, and when it comes after the files are read back (concatenated, deleted) the last one is still unflushed", key_of(f, f"write-handle-closed-after-loop:{h}"))
+        # (g)
+        for st in own:
+            if isinstance(st, ast.Assign) and isinstance(st.value, (ast.Call, ast.IfExp)):
+                cands = [st.value] if isinstance(st.value, ast.Call) else [st.value.body, st.value.orelse]
+                for v in cands:
+                    if _is_open_call(v, "w") and v.args and isinstance(v.args[0], ast.Name) and v.args[0].id in f.params and not any(isinstance(x, ast.Name) and x.id == v.args[0].id and isinstance(x.ctx, ast.Store) for x in own):
+                        pidx = f.params.index(v.args[0].id)
+                        for g in repo.all_funcs():
+                            gown = list(walk_own(g.node))
+                            sites = [c for c in gown if isinstance(c, ast.Call) and repo.resolve_call(g, c) is not None and repo.resolve_call(g, c).node is f.node]
+                            if not sites:
+                                continue
+
+                            def arg_of(c):
+                                off = 1 if f.cls is not None and f.params and f.params[0] == "self" else 0
+                                i_ = pidx - off
+                                if 0 <= i_ < len(c.args):
+                                    return c.args[i_]
+                                return next((k.value for k in c.keywords if k.arg == f.params[pidx]), None)
+
+                            bad = None
+                            for c in sites:
+                                a = arg_of(c)
+                                if a is None:
+                                    continue
+                                for lp in [x for x in gown if isinstance(x, (ast.For, ast.While)) and any(y is c for y in ast.walk(x))]:
+                                    st_in = {x.id for x in ast.walk(lp) if isinstance(x, ast.Name) and isinstance(x.ctx, ast.Store)}
+                                    if not ({x.id for x in ast.walk(a) if isinstance(x, ast.Name)} & st_in) and not isinstance(a, ast.Constant):
+                                        bad = (c, f"inside the loop at line {lp.lineno} with the same path `{norm(a)}` every time round")
+                            if bad is None and len(sites) >= 2:
+                                a0 = [norm(arg_of(c)) for c in sites if arg_of(c) is not None]
+                                if len(a0) >= 2 and len(set(a0)) == 1 and a0[0] != "None":
+                                    bad = (sites[1], f"{len(sites)} times with the same path `{a0[0]}`")
+                            if bad is not None:
+                                n += 1
+                                ctx.violated(rule, g.where(bad[0]), f"`{f.name}` opens the path it is given with `{norm(v)[:40]}` (truncating) and `{g.name}` calls it {bad[1]}: each call empties the file again, only what the last call wrote survives", key_of(g, f"truncating-open-called-repeatedly:{f.name}"))
+        # (h)
+        for lp in loops:
+            if not isinstance(lp, ast.For):
+                continue
+            roots = {x.id for x in ast.walk(lp.iter) if isinstance(x, ast.Name)}
+            seeks = [c for c in own if isinstance(c, ast.Call) and isinstance(c.func, ast.Attribute) and c.func.attr == "seek" and c.args and isinstance(c.args[0], ast.Constant) and c.args[0].value == 0 and not any(y is c for y in ast.walk(lp)) and getattr(c, "lineno", 0) > lp.lineno]
+            seeks = [c for c in seeks if {x.id for x in ast.walk(c.func.value) if isinstance(x, ast.Name)} & roots and ({x.id for x in ast.walk(c.func.value) if isinstance(x, ast.Name)} & roots) <= set(f.params)]
+            if not seeks:
+                continue
+            for r in [y for b in lp.body for y in ast.walk(b) if isinstance(y, ast.Return)]:
+                n += 1
+                ctx.violated(rule, f.where(r), f"`{f.name}` rewinds the reader it was given (`{norm(seeks[0])}`) after the loop at line {lp.lineno}, but this `return` leaves from inside the loop without the rewind: the caller goes on reading from the middle of the file and never sees the lines before that position", key_of(f, "rewind-skipped-on-early-return"))
+                break
+        # (i)
+        for st in walk_stmts(f.node.body):
+            if isinstance(st, ast.Expr) and isinstance(st.value, ast.Call):
+                c = st.value
+                h = None
+                if isinstance(c.func, ast.Attribute) and c.func.attr in ("readline", "read", "__next__") and isinstance(c.func.value, ast.Name):
+                    h = c.func.value.id
+                elif isinstance(c.func, ast.Name) and c.func.id == "next" and c.args and isinstance(c.args[0], ast.Name):
+                    h = c.args[0].id
+                if h is None:
+                    continue
+                opened = any(isinstance(a, ast.Assign) and norm(a.targets[0]) == h and _is_open_call(a.value) for a in own)
+                looped = any(isinstance(l2, ast.For) and h in {x.id for x in ast.walk(l2.iter) if isinstance(x, ast.Name)} and l2.lineno > st.lineno for l2 in own)
+                rewound = any(isinstance(k, ast.Call) and isinstance(k.func, ast.Attribute) and k.func.attr == "seek" and norm(k.func.value) == h for k in own)
+                if opened and looped and not rewound:
+                    n += 1
+                    ctx.violated(rule, f.where(st), f"`{norm(st)[:40]}` reads from the freshly opened `{h}` and throws the result away, and `{h}` is not rewound before the loop over it: the loop starts at the second line, whatever the first line held is never processed", key_of(f, f"probe-read-not-rewound:{h}"))
+        # (j)
+        if f.cls is not None and f.name not in ("close", "__exit__", "__del__", "__init__"):
+            for w in own:
+                if isinstance(w, ast.With):
+                    for it in w.items:
+                        ce = it.context_expr
+                        if isinstance(ce, ast.Attribute) and isinstance(ce.value, ast.Name) and ce.value.id == "self":
+                            init = f.module.funcs.get(f"{f.cls}.__init__")
+                            opened = init is not None and any(isinstance(a, ast.Assign) and norm(a.targets[0]) == norm(ce) and _is_open_call(a.value) for a in walk_own(init.node))
+                            if opened:
+                                n += 1
+                                gen = any(isinstance(y, (ast.Yield, ast.YieldFrom)) for y in own)
+                                ctx.violated(rule, f.where(w), f"`with {norm(ce)}:` in `{f.qualname}` closes the handle the object opened in __init__ when the block ends{' (for this generator: when it is exhausted, dropped or garbage-collected)' if gen else ''}: every later `read_line` / second pass over the same object fails with `I/O operation on closed file`", key_of(f, f"with-closes-own-handle:{norm(ce)}"))
+    return n
+
+
+def _stale_in_loop_lint(ctx, funcs, rule):
+    """(k) inside a loop, a name bound only in one branch of the body and read in another branch (whose tests look at this
+    iteration's values only) holds what an EARLIER iteration left there (or nothing, in the first): one record is written with
+    another record's fields."""
+    from ..core import norm, walk_own
+
+    n = 0
+    TERM = (ast.Return, ast.Raise, ast.Continue, ast.Break)
+
+    def names(e, ctxt):
+        out = set()
+        stack = [e]
+        while stack:
+            x = stack.pop()
+            if isinstance(x, (ast.FunctionDef, ast.Lambda, ast.ListComp, ast.SetComp, ast.DictComp, ast.GeneratorExp)) and x is not e:
+                # comprehension: its iterables and free names are read now; keep it simple and read the first iterable only
+                if not isinstance(x, (ast.FunctionDef, ast.Lambda)):
+                    stack.append(x.generators[0].iter)
+                continue
+            if isinstance(x, ast.Name) and isinstance(x.ctx, ctxt):
+                out.add(x.id)
+            stack.extend(ast.iter_child_nodes(x))
+        return out
+
+    for f in funcs:
+        own = list(walk_own(f.node))
+        comp_targets = {x.id for c in own if isinstance(c, ast.comprehension) for x in ast.walk(c.target) if isinstance(x, ast.Name)}
+        glob = {nm for g_ in own if isinstance(g_, (ast.Global, ast.Nonlocal)) for nm in g_.names}
+        for lp in own:
+            if not isinstance(lp, (ast.For, ast.While)):
+                continue
+            body_nodes = {id(y) for b in lp.body for y in ast.walk(b)}
+            stored_in = {x.id for x in own if isinstance(x, ast.Name) and isinstance(x.ctx, ast.Store) and id(x) in body_nodes}
+            stored_out = {x.id for x in own if isinstance(x, ast.Name) and isinstance(x.ctx, ast.Store) and id(x) not in body_nodes}
+            for y in own:
+                if isinstance(y, (ast.Import, ast.ImportFrom)):
+                    stored_out |= {(a.asname or a.name).split(".")[0] for a in y.names}
+                if isinstance(y, ast.ExceptHandler) and y.name:
+                    stored_out.add(y.name)
+                if isinstance(y, (ast.FunctionDef, ast.ClassDef)) and y is not f.node:
+                    stored_out.add(y.name)
+            cands = stored_in - stored_out - set(f.params) - comp_targets - glob
+            if isinstance(lp, ast.For):
+                cands -= {x.id for x in ast.walk(lp.target) if isinstance(x, ast.Name)}
+            if not cands:
+                continue
+            reports = {}
+            cond_defs = {}
+
+            def conj(t, pol=True):
+                while isinstance(t, ast.UnaryOp) and isinstance(t.op, ast.Not):
+                    t, pol = t.operand, not pol
+                if isinstance(t, ast.BoolOp) and ((isinstance(t.op, ast.And) and pol) or (isinstance(t.op, ast.Or) and not pol)):
+                    out = []
+                    for v in t.values:
+                        out += conj(v, pol)
+                    return out
+                return [("" if pol else "not ") + norm(t)]
+
+            def read(e, defd, carried, where):
+                if e is None or carried:
+                    return
+                for nm in names(e, ast.Load):
+                    if nm in cands and nm not in defd and nm not in reports:
+                        reports[nm] = where
+
+            def store(e, defd):
+                if e is not None:
+                    defd |= names(e, ast.Store)
+
+            def block(stmts, defd, carried):
+                """returns (defd at fall-through, terminated?)"""
+                for st in stmts:
+                    if isinstance(st, (ast.FunctionDef, ast.ClassDef)):
+                        defd.add(st.name)
+                        continue
+                    if isinstance(st, ast.If):
+                        read(st.test, defd, carried, st)
+                        store(st.test, defd)
+                        tn = names(st.test, ast.Load)
+                        car2 = carried or bool({x for x in tn if x in stored_in and x not in defd})
+                        d1 = set(defd)
+                        for cj in conj(st.test, True):
+                            d1 |= cond_defs.get(cj, set())
+                        d2 = set(defd)
+                        for cj in conj(st.test, False):
+                            d2 |= cond_defs.get(cj, set())
+                        e1, t1 = block(st.body, d1, car2)
+                        e2, t2 = block(st.orelse, d2, car2)
+                        if not t1:
+                            for cj in conj(st.test, True):
+                                if len(conj(st.test, True)) == 1:
+                                    cond_defs.setdefault(cj, set()).update(e1 - defd)
+                        if not t2:
+                            for cj in conj(st.test, False):
+                                if len(conj(st.test, False)) == 1:
+                                    cond_defs.setdefault(cj, set()).update(e2 - defd)
+                        if t1 and t2:
+                            return defd, True
+                        defd = e2 if t1 else (e1 if t2 else (e1 & e2))
+                        defd = set(defd)
+                    elif isinstance(st, (ast.For, ast.While)):
+                        if isinstance(st, ast.For):
+                            read(st.iter, defd, carried, st)
+                            store(st.target, defd)
+                        else:
+                            read(st.test, defd, carried, st)
+                        e1, _t = block(st.body, set(defd), True if isinstance(st, ast.While) else carried)
+                        defd |= e1  # optimistic: what the inner loop binds counts as bound after it
+                        e2, _t = block(st.orelse, set(defd), carried)
+                        defd |= e2
+                    elif isinstance(st, ast.Try):
+                        e1, t1 = block(st.body, set(defd), carried)
+                        ends = [] if t1 else [e1]
+                        for h in st.handlers:
+                            eh, th = block(h.body, set(defd) | ({h.name} if h.name else set()), carried)
+                            if not th:
+                                ends.append(eh)
+                        if st.orelse:
+                            eo, to = block(st.orelse, set(e1), carried)
+                            if not t1:
+                                ends[0:1] = [] if to else [eo]
+                        if not ends:
+                            ef, tf = block(st.finalbody, set(defd), carried)
+                            return defd, True
+                        cur = set.intersection(*ends)
+                        ef, tf = block(st.finalbody, cur, carried)
+                        if tf:
+                            return defd, True
+                        defd = ef
+                    elif isinstance(st, (ast.With, ast.AsyncWith)):
+                        for it in st.items:
+                            read(it.context_expr, defd, carried, st)
+                            store(it.optional_vars, defd)
+                        defd, t = block(st.body, defd, carried)
+                        if t:
+                            return defd, True
+                    elif isinstance(st, ast.Match):
+                        return defd | cands, False  # not modelled: be silent
+                    elif isinstance(st, TERM):
+                        read(getattr(st, "value", None) or getattr(st, "exc", None), defd, carried, st)
+                        return defd, True
+                    elif isinstance(st, ast.AugAssign):
+                        read(st.value, defd, carried, st)
+                        if isinstance(st.target, ast.Name):
+                            read(ast.Name(id=st.target.id, ctx=ast.Load()), defd, carried, st)
+                        else:
+                            read(st.target, defd, carried, st)
+                    elif isinstance(st, ast.Delete):
+                        for t_ in st.targets:
+                            if isinstance(t_, ast.Name):
+                                defd.discard(t_.id)
+                    else:
+                        for ch in ast.iter_child_nodes(st):
+                            read(ch, defd, carried, st)
+                        for ch in ast.iter_child_nodes(st):
+                            store(ch, defd)
+                return defd, False
+
+            try:
+                block(lp.body, set(), isinstance(lp, ast.While) and not (isinstance(lp.test, ast.Constant)))
+            except RecursionError:
+                continue
+            for nm, st in sorted(reports.items()):
+                n += 1
+                ctx.violated(rule, f.where(st), f"`{nm}` is bound only inside the loop at line {lp.lineno}, in a branch this path does not take, and read here: on this path it still holds what an earlier iteration bound (another record's value), or nothing at all in the first iteration", key_of(f, f"stale-loop-variable:{nm}"))
+    return n
+
+
+def _use_before_check_lint(ctx, funcs, rule):
+    """(l) `v[k]` evaluated before the later test on `len(v)` that leaves the function when `v` has no element k: the
+    check that guards the access comes too late (IndexError instead of the guarded outcome)."""
+    from ..core import norm, walk_own, const_value
+
+    n = 0
+    TERM = (ast.Return, ast.Raise, ast.Continue, ast.Break)
+
+    def len_exits(t, v, k, negate):
+        """can the exit condition (t, or not t when negate) be true with len(v) <= k ?"""
+        while isinstance(t, ast.UnaryOp) and isinstance(t.op, ast.Not):
+            t, negate = t.operand, not negate
+        if isinstance(t, ast.Name) and t.id == v:
+            return negate  # `if not v: exit`
+        if isinstance(t, ast.BoolOp):
+            disj = isinstance(t.op, ast.Or) != negate
+            if disj:
+                return any(len_exits(x, v, k, negate) for x in t.values)
+            return False
+        if isinstance(t, ast.Compare) and len(t.ops) == 1 and norm(t.left) == f"len({v})" and isinstance(const_value(t.comparators[0]), int):
+            c = const_value(t.comparators[0])
+            import operator as op_
+
+            fn = {ast.Eq: op_.eq, ast.NotEq: op_.ne, ast.Lt: op_.lt, ast.LtE: op_.le, ast.Gt: op_.gt, ast.GtE: op_.ge}.get(type(t.ops[0]))
+            if fn is None:
+                return False
+            return any(fn(m, c) != negate for m in range(0, k + 1))
+        return False
+
+    def blocks(node):
+        for x in ast.walk(node):
+            if isinstance(x, (ast.FunctionDef, ast.Lambda)) and x is not node:
+                continue
+            for fld in ("body", "orelse", "finalbody"):
+                b = getattr(x, fld, None)
+                if isinstance(b, list) and b and isinstance(b[0], ast.stmt):
+                    yield b
+
+    for f in funcs:
+        for b in blocks(f.node):
+            for i, st in enumerate(b):
+                if isinstance(st, (ast.If, ast.For, ast.While, ast.Try, ast.With, ast.FunctionDef)):
+                    continue
+                subs = [(x.value.id, const_value(x.slice)) for x in ast.walk(st) if isinstance(x, ast.Subscript) and isinstance(x.ctx, ast.Load) and isinstance(x.value, ast.Name) and isinstance(const_value(x.slice), int)]
+                for v, k in subs:
+                    kk = k if k >= 0 else -k - 1
+                    for later in b[i + 1 :]:
+                        if any(isinstance(y, ast.Name) and y.id == v and isinstance(y.ctx, ast.Store) for y in ast.walk(later)) or any(isinstance(y, ast.Call) and isinstance(y.func, ast.Attribute) and norm(y.func.value) == v and y.func.attr in ("append", "extend", "pop", "remove", "insert", "clear") for y in ast.walk(later)):
+                            break
+                        guard = None
+                        if isinstance(later, ast.If) and later.body and isinstance(later.body[-1], TERM) and len_exits(later.test, v, kk, False):
+                            guard = later
+                        elif isinstance(later, ast.Assert) and len_exits(later.test, v, kk, True):
+                            guard = later
+                        elif isinstance(later, ast.Try):
+                            for a in later.body:
+                                if isinstance(a, ast.Assert) and len_exits(a.test, v, kk, True) and any(h.type is None or "AssertionError" in norm(h.type) or norm(h.type) in ("Exception", "BaseException") for h in later.handlers):
+                                    guard = a
+                        if guard is not None:
+                            n += 1
+                            ctx.violated(rule, f.where(st), f"`{v}[{k}]` is evaluated at line {st.lineno}, before the test `{norm(guard.test)[:50]}` at line {guard.lineno} that leaves when `{v}` has no such element: for the inputs that test exists for, this line raises IndexError first and the guarded outcome (skip / report) never happens", key_of(f, f"use-before-check:{v}[{k}]"))
+                            break
     return n
 
 
@@ -977,6 +1681,7 @@ def pre_lints(ctx):
     text_lint(ctx, mods)
     funcs = [f for m in mods for f in m.funcs.values()]
     n = pitfall_lints(ctx, funcs, "R00.7")
+    n += lifecycle_lints(ctx, funcs, "R00.11")
     for f in funcs:
         for c in walk_own(f.node):
             if isinstance(c, ast.Call) and isinstance(c.func, ast.Attribute) and c.func.attr == "split" and not c.keywords and (not c.args or (isinstance(c.args[0], ast.Constant) and c.args[0].value is None)):
